@@ -101,7 +101,16 @@ Two DIFFERENT changes (call them {pid}-{k1} and {pid}-{k2}) to the library's non
    calls of different transport paths (reported as such), raw ICMP observation, IPv6 senders, multicast broadcast addresses,
    real process signals, TZ changed at run time, address text with escapes and environment references, case mappings that
    change byte lengths, decorated text (fractional seconds) whose decoded value must survive its own JSON form, out-of-range
-   times in ordered segments, special-purpose IPv4 ranges, instants centuries apart, layouts of up to 62 fields:
+   times in ordered segments, special-purpose IPv4 ranges, instants centuries apart, layouts of up to 62 fields, processes
+   that have started tens of millions of goroutines and hold thousands of descriptors, GOMAXPROCS 1..3, discoveries with
+   dozens of replies, timeouts of days .. years .. for ever, time.Local reassigned while events are in flight, calls made
+   while the client's listener runs, builds under every custom build tag found in the source, batch decoding (elements
+   compared with single decodes, destination slices and windows reused), appends to decoded address fields, overlapping
+   discoveries, real sockets watching the addresses named in arguments, HH:mm values with three-digit / negative / extreme
+   components, the zero date-time and date-times before 1970, each zone's reading of the Unix epoch and 2^31 / 2^32 seconds,
+   meaningful MAC addresses (zero, broadcast), numbers with leading zeros, door lists of any length, any signal number, stray
+   replies and 0x19 status replies on the broadcast path, decoding address text into variables that hold a value, inputs
+   of more than 2^32 digits, discoveries queued behind a held bind port:
    look for what such testing still would NOT reach.
 
 Changes of earlier rounds - do NOT repeat these or close variants of them; find a different mechanism, a different
